@@ -591,8 +591,10 @@ impl WebSocketContext {
     {
         if let WebSocketState::Active = self.state {
             self.state = WebSocketState::ClosedByUs;
-            let frame = Frame::close(code);
-            self._write(stream, Some(frame))?;
+            // Queue the close frame as the pending control frame: it replaces a pending
+            // pong (nothing may follow our close frame) and it stays pending, instead of
+            // being dropped, when the write buffer is full.
+            self.additional_send = Some(Frame::close(code));
         }
         self.flush(stream)
     }
